@@ -11,15 +11,24 @@
 // counted loop over a literal bound) is followed; a branch on unknown data is
 // followed away from an error exit (a block that returns a non-nil error),
 // and recorded as an assumption — this is E2's "success path". Any other
-// data-dependent branch, any instruction or library call that is not
-// modelled, any possible out-of-range index aborts the run with a reason, and
-// the rule that asked must report Undecided.
+// data-dependent branch aborts the run unless the rule enumerates paths
+// (Paths: the run is repeated once per combination of outcomes of such
+// branches and the rule must hold on every path). Any instruction or library
+// call that is not modelled, any possible out-of-range index aborts the run
+// with a reason, and the rule that asked must not conclude anything from it.
+//
+// Function values (declared functions, closures with their captured
+// variables) are called like static callees; a package-level variable that is
+// assigned once by its package initialiser and only ever read (a table of
+// patterns, offsets, parser functions) evaluates to its initialiser.
 package absint
 
 import (
 	"fmt"
 	"go/types"
 	"strings"
+
+	"golang.org/x/tools/go/ssa"
 
 	"manticheck/internal/lanes"
 )
@@ -116,9 +125,9 @@ type Ptr struct{ N *Node }
 
 // Slice is arr[Lo:Hi] with capacity up to Cap (absolute index into arr).
 type Slice struct {
-	Arr        *Node
+	Arr         *Node
 	Lo, Hi, Cap int
-	Nil        bool
+	Nil         bool
 }
 
 func (s Slice) Len() int { return s.Hi - s.Lo }
@@ -140,8 +149,13 @@ type Tuple []Value
 // Opaque is a value the domain does not describe.
 type Opaque struct{ Why string }
 
-// Func is a function value.
-type Func struct{ Name string }
+// Func is a function value: a declared function (Fn), possibly a closure with
+// its captured variables bound (Free), or a builtin (Fn == nil).
+type Func struct {
+	Name string
+	Fn   *ssa.Function
+	Free []Value
+}
 
 func copyNode(n *Node) *Node {
 	if n == nil {
@@ -300,4 +314,11 @@ type Assumption struct {
 	Fn    string
 	Cond  Bool
 	Taken bool
+}
+
+// MatchEvent is one regexp match whose outcome the abstract string decided.
+type MatchEvent struct {
+	Fn     string
+	Pat    string
+	Result bool
 }
